@@ -566,6 +566,8 @@ def run_case(chk, S, w, cfg, ty, p0, faults, corr_fail, case_extra=None):
     for f in faults:
         chk.note("fault:" + f["what"], "fault-depth:%d" % len(f["path"]))
     chk.note("faults:%d" % len(faults), "cfg:" + cfg_name(cfg), "ty:" + (ty if isinstance(ty, str) else ty[0]))
+    if gen.has_enum_lit(w, ty):
+        chk.note("literal-with-enum-members-reachable")
     for t_ in set(t if isinstance(t, str) else t[0] for rt in gen.reach_types(w, ty) for t in gen.walk_types(rt)):
         if t_ in ("nt", "tup", "td", "cls", "union"):
             chk.note("reaches:" + t_)
@@ -699,7 +701,7 @@ def case_types(chk, G, S, w, n_types):
 def worlds(chk, drv, n_worlds):
     """like streams.worlds; generator features that belong to other properties are normalised away: a bare `Final`
     attribute (dispatch on the class of the default) is spelled `Final[<that class>]`"""
-    G = gen.Gen(chk.rng, max_depth=4, unions=True, nt=True)
+    G = gen.Gen(chk.rng, max_depth=4, unions=True, nt=True, enum_lits=True)
     made = attempts = 0
     while made < n_worlds and attempts < n_worlds * 3:
         attempts += 1
